@@ -170,6 +170,9 @@ fn check_pair<Ctx: Cx>(rep: &Report, ctx: &str, a: &Item<Ctx>, b: &Item<Ctx>) ->
             if ab != ba.reverse() {
                 viol("cmp-not-antisymmetric", format!("cmp(a,b)={:?} cmp(b,a)={:?}", ab, ba));
             }
+            if a.ms.partial_cmp(&b.ms) != Some(ab) {
+                viol("partial_cmp-differs-from-cmp", format!("partial_cmp(a,b)={:?} cmp(a,b)={:?}", a.ms.partial_cmp(&b.ms), ab));
+            }
         }
         Err(e) => viol(&format!("cmp-panic@{}", panic_site(&e)), format!("cmp panicked: {}", e)),
     }
